@@ -82,8 +82,11 @@ fn index_doc(doc: &XmlNode) -> HashMap<usize, (String, i64)> {
             // the relative order of one element's attributes is implementation-dependent: sort by name so
             // that the index is comparable with the re-parsed copy
             names.sort_by(|a, b| a.0.cmp(&b.0));
-            for (nm, a) in names {
+            // ... and for the same reason they all get ONE index (ties are allowed among them)
+            if !names.is_empty() {
                 *k += 1;
+            }
+            for (nm, a) in names {
                 m.insert(a.id(), (format!("{}/@{}", path, nm), *k));
             }
         }
